@@ -459,7 +459,7 @@ class BaseParser:
                     if given_values[name] != value:
                         context.handle_error(exc.AliasConflictError(item=name, value=value))
                     continue
-                given_values[name] = value
+            given_values[name] = value
 
             if excluded_keys and name in excluded_keys:
                 continue
@@ -479,7 +479,8 @@ class BaseParser:
         # fields that were not given are applied either way (as the field-first strategy does)
         for key, field in self.fields.items():
             name = field.attname if as_attname else field.name
-            if name in result:
+            if name in result or name in given_values:
+                # a field that was given (even if its value failed to parse) is not absent
                 continue
             if excluded_keys and name in excluded_keys:
                 continue
